@@ -1,4 +1,7 @@
 pub mod c01;
+pub mod c02;
+pub mod c03;
+pub mod c04;
 
 use crate::fw::Outcome;
 use crate::gens::WCase;
@@ -9,6 +12,16 @@ use crate::oracle::Bad;
 /// operation (with the op) and may report a violation.
 pub fn run_wcase(
     case: &WCase,
+    hook: impl FnMut(&mut Sim, &Op, bool) -> Result<(), Bad>,
+) -> Result<Sim, Outcome> {
+    run_wcase2(case, |_, _| Ok(()), hook)
+}
+
+/// Like `run_wcase` with an additional hook that runs before each operation
+/// of the history (not of the set-up).
+pub fn run_wcase2(
+    case: &WCase,
+    mut pre: impl FnMut(&mut Sim, &Op) -> Result<(), Bad>,
     mut hook: impl FnMut(&mut Sim, &Op, bool) -> Result<(), Bad>,
 ) -> Result<Sim, Outcome> {
     let mut sim = match Sim::new(case.cfg.clone(), case.key_start as usize) {
@@ -24,6 +37,15 @@ pub fn run_wcase(
     };
     for (phase, ops) in [(true, &case.setup), (false, &case.ops)] {
         for (i, op) in ops.iter().enumerate() {
+            if !phase {
+                if let Err((clause, key, msg)) = pre(&mut sim, op) {
+                    return Err(Outcome::Violation {
+                        clause,
+                        key,
+                        msg: format!("before history op #{i} {}: {msg}\nlog tail: {:?}", op.short(), tail(&sim.log, 10)),
+                    });
+                }
+            }
             match sim.apply(op) {
                 Ok(()) => {}
                 Err(Fail::Crash(e)) => {
@@ -42,7 +64,11 @@ pub fn run_wcase(
                 }
                 Err(Fail::Harness(e)) => return Err(Outcome::Harness(e)),
             }
-            if let Err((clause, key, msg)) = hook(&mut sim, op, phase) {
+            let hooked = match sim.task_bad.take() {
+                Some(b) => Err(b),
+                None => hook(&mut sim, op, phase),
+            };
+            if let Err((clause, key, msg)) = hooked {
                 return Err(Outcome::Violation {
                     clause,
                     key,
